@@ -10,16 +10,24 @@ streaming writer x depth x gulp, with stale junk at the output path beforehand:
   * after every call the disk holds header ++ the blocks handed to cwrite so far (so it only grows and nothing is rewritten);
   * between two blocks of the read plan every output receives exactly one cwrite (one block per gulp, in loop order);
   * on normal return the file equals the last observation (complete without relying on close);
+  * every observed intermediate state is a byte prefix of the file the call leaves behind, and the header region of that file
+    is byte for byte the header first written (never patched afterwards);
+  * every writer that takes a range is observed on SUB-RANGES with start > 0 too (start/nsamps strictly inside the file), not
+    only on whole-file calls: code that runs only for start > 0 is inside the scope;
   * extract_bands / extract_chans with batch sizes 1, 2, 3, 5 and enough outputs for several batches: every output path is watched
     over the WHOLE call (also after it was closed): each state extends the previous one, header written once;
   * every byte-length truncation L >= |hdr| of the final file opens with FilReader, reports floor(8(L-|hdr|)/(nbits*nchans))
     samples and read_block(0, that many) equals the first that many samples of the full read; truncations inside the header raise.
 
 Correspondence: the executable model (at_crash / on_return / open_nsamples / read_block_file) under vm_compute on the same
-(stale content, header bytes, block bytes, truncation lengths) versus what the implementation left on disk / read back."""
+(stale content, header bytes, block bytes, truncation lengths) versus what the implementation left on disk / read back.
+
+At-scale search: scale(R) at the end of this file (blocks around 2**16 .. 2**24 elements at every depth, 1e5 .. 1.7e7 samples, gulps
+16384 / non-dividing / above 65536, 70000 blocks, 450 outputs in batches of 200, 4096 channels; same oracle with byte counts and crc32)."""
 import os
 import re
 import shutil
+import zlib
 
 import numpy as np
 
@@ -102,7 +110,7 @@ def run(R: vlib.Run):
     from sigpyproc.io import sigproc
     from sigpyproc.readers import FilReader
     R.rule = ("synthetic inputs at depths 1,2,4,8,16,32 (a sample a whole number of bytes); the 9 streaming writers of base.py at gulps "
-              "{1,3,n-1,n,>n} plus FilterbankBlock.to_file and TimeSeries.to_tim; stale bytes at every output path; every crash point "
+              "{1,3,n-1,n,>n} plus FilterbankBlock.to_file and TimeSeries.to_tim; every writer with a range also on a sub-range with start > 0; stale bytes at every output path; every crash point "
               "(after each write/cwrite) and every byte-length truncation of the final file (all lengths 0..len for one gulp per "
               "writer/depth, block boundaries +-1 for the others).  distinct = (writer, depth, gulp, params, output); non-trivial = "
               "more than one block written or a truncation sweep")
@@ -254,6 +262,21 @@ def run(R: vlib.Run):
             if not okpat:
                 R.fail(f"{site}-not-one-block-per-gulp", "blocks do not reach the output one per block of the read plan, in order",
                        dict(c, pattern=pat[:60]))
+            # every observed state is a byte prefix of the file the call leaves behind; the header region in particular
+            if final[:len(h)] != h:
+                diff = next((i for i in range(min(len(h), len(final))) if final[i] != h[i]), min(len(h), len(final)))
+                R.fail(f"{site}-header-patched", "the header region of the file left behind differs from the header that was first written "
+                       "(patched after the data): the intermediate states were not prefixes of the final file",
+                       dict(c, header_len=len(h), final_len=len(final), first_differing_byte=diff,
+                            written=h[diff:diff + 8].hex(), final=final[diff:diff + 8].hex(), events=kinds))
+                continue
+            notpre = next((j for j, e in enumerate(evs) if not final.startswith(e[3])), None)
+            if notpre is not None:
+                st = evs[notpre][3]
+                diff = next((i for i in range(min(len(st), len(final))) if final[i] != st[i]), min(len(st), len(final)))
+                R.fail(f"{site}-state-not-prefix-of-final", "a state of the output observed during the call is not a byte prefix of the file left behind",
+                       dict(c, event=notpre, events=kinds, state_len=len(st), final_len=len(final), first_differing_byte=diff))
+                continue
             # complete on return (or: what survives the exception is the last observation)
             if final != evs[-1][3]:
                 R.fail(f"{site}-changed-after-last-write" if exc is None else f"{site}-changed-after-death",
@@ -289,6 +312,7 @@ def run(R: vlib.Run):
             half = nch // 2
             mask = (np.arange(nch) % 2).astype(bool)
             gulps = sorted(set([1, 3, N - 1, N, N + 3]))
+            SUB = (2, N - 3)            # sub-range: samples 2 .. N-2
             if R.tier != "quick":
                 gulps = sorted(set(gulps + [2, 4, 5, rng.randrange(1, N + 5)]))
 
@@ -306,6 +330,20 @@ def run(R: vlib.Run):
                      lambda: fil.extract_chans([0, nch - 1], base, batch_size=1, **kw)),
                     ("extract_bands", "2 bands", [f"{base}_sub00.fil", f"{base}_sub01.fil"] if half * nbits % 8 == 0 and half > 1 else [f"{base}_sub00.fil"],
                      (lambda: fil.extract_bands(0, nch, half, base, **kw)) if half * nbits % 8 == 0 and half > 1 else (lambda: fil.extract_bands(0, nch, nch, base, **kw))),
+                ]
+                # the same writers on a SUB-RANGE strictly inside the file (start > 0, end < N)
+                s0, m = SUB
+                kr = dict(kw, start=s0, nsamps=m)
+                out += [] if R.tier == "quick" and gulp not in (1, 3, N + 3) else [
+                    ("invert_freq", f"sub{s0}+{m}", [o1], lambda: fil.invert_freq(o1, **kr)),
+                    ("apply_channel_mask", f"sub{s0}+{m}", [o1], lambda: fil.apply_channel_mask(mask, 0, o1, **kr)),
+                    ("downsample", f"t2;sub{s0}+{m}", [o1], lambda: fil.downsample(2, 1, o1, **kr)),
+                    ("requantize", f"8;sub{s0}+{m}", [o1], lambda: fil.requantize(8, o1, **kr)),
+                    ("remove_zerodm", f"sub{s0}+{m}", [o1], lambda: fil.remove_zerodm(o1, **kr)),
+                    ("subband", f"dm0.25;sub{s0}+{m}", [o1], lambda: fil.subband(0.25, 2, o1, **kr)),
+                    ("extract_chans", f"0,last;batch1;sub{s0}+{m}", [f"{base}_chan{0:04d}.tim", f"{base}_chan{nch - 1:04d}.tim"],
+                     lambda: fil.extract_chans([0, nch - 1], base, batch_size=1, **kr)),
+                    ("extract_bands", f"1 band;sub{s0}+{m}", [f"{base}_sub00.fil"], lambda: fil.extract_bands(0, nch, nch, base, **kr)),
                 ]
                 if gulp == 3:
                     out += [
@@ -332,6 +370,8 @@ def run(R: vlib.Run):
                         ev = list(tap.ev)
                     fs_key = (site, nbits, p)
                     full_sweep = (gulp == 3 and fs_key not in swept) or R.tier != "quick" and gulp in (1, N)
+                    if "sub" in p and site != "extract_samps" and nbits != 8:
+                        full_sweep = False      # the reader sweep does not depend on the range: one depth is enough for the sub-range variants
                     if gulp == 3:
                         swept.add(fs_key)
                     judge(site, case, ev, outs, exc, full_sweep)
@@ -444,3 +484,608 @@ Eval vm_compute in (length cases, idx).""")
     finally:
         shutil.rmtree(d, ignore_errors=True)
     return R
+
+
+# =====================================================================================================================
+# at-scale search (called by check.py after run(R) when something no longer checks and no small failing input was found, always
+# in the thorough tier, and with VERIF_SCALE=1).  Silent on the unchanged tree; failure keys start with `scale-`.
+# =====================================================================================================================
+def np_pack(v, nbits):
+    """independent numpy encoder of sub-byte samples (SIGPROC conventions of sigpyproc: 1 bit = little-endian bit order, 2 and 4
+    bits = first sample in the high bits); v: values < 2**nbits, length a multiple of 8 // nbits"""
+    v = np.ascontiguousarray(v).astype(np.uint8, copy=False).ravel()
+    if nbits == 1:
+        return np.packbits(v, bitorder="little")
+    per = 8 // nbits
+    m = v.reshape(-1, per)
+    out = np.zeros(m.shape[0], np.uint8)
+    for j in range(per):
+        out |= m[:, j] << np.uint8((per - 1 - j) * nbits)
+    return out
+
+
+def np_enc(vals, nbits):
+    """the bytes (1-D uint8 array) `vals` occupy in a SIGPROC data section of depth nbits (independent of FileWriter)"""
+    if nbits < 8:
+        return np_pack(vals, nbits)
+    dt = {8: "u1", 16: "<u2", 32: "<f4"}[nbits]
+    return np.ascontiguousarray(np.ascontiguousarray(vals).astype(dt, copy=False).ravel()).view(np.uint8)
+
+
+def np_dec(raw, nbits):
+    """inverse of np_enc on a 1-D uint8 array"""
+    raw = np.ascontiguousarray(raw)
+    if nbits == 1:
+        return np.unpackbits(raw, bitorder="little")
+    if nbits < 8:
+        per = 8 // nbits
+        return np.stack([(raw >> np.uint8((per - 1 - j) * nbits)) & np.uint8((1 << nbits) - 1) for j in range(per)], axis=1).ravel()
+    return raw.view({8: "u1", 16: "<u2", 32: "<f4"}[nbits])
+
+
+def disk_state(path):
+    """(length, crc32) of what is on disk at `path`, read back in full"""
+    n, c = 0, 0
+    with open(path, "rb") as f:
+        while True:
+            b = f.read(1 << 24)
+            if not b:
+                break
+            n += len(b)
+            c = zlib.crc32(b, c)
+    return n, c
+
+
+class ScaleTap:
+    """at-scale observer: wraps FileWriter.write / FileWriter.cwrite / FilReader.read_plan.  After every write the output path
+    is read back: ('W', path, payload, first bytes on disk, size on disk), ('C', path, elements, size on disk, crc32 of the whole
+    file or None when thinned), ('Y', samples in the block of the read plan).  thin = n > 1: the whole-file read-back happens
+    at the first 3 blocks and every n-th (the size is measured at every block)"""
+
+    def __init__(self, thin=1):
+        from sigpyproc.io import fileio
+        from sigpyproc.readers import FilReader
+        self.fileio, self.FilReader = fileio, FilReader
+        self.ev, self.count, self.thin = [], {}, thin
+        self.ow, self.oc, self.orp = fileio.FileWriter.write, fileio.FileWriter.cwrite, FilReader.read_plan
+        tap = self
+
+        def w(self_, bo):
+            r = tap.ow(self_, bo)
+            p = self_.files[0]
+            with open(p, "rb") as f:
+                disk = f.read(len(bo) + 4096)
+            tap.ev.append(("W", p, bytes(bo), disk, os.path.getsize(p)))
+            return r
+
+        def c(self_, arr):
+            n = int(np.asarray(arr).size)
+            r = tap.oc(self_, arr)
+            p = self_.files[0]
+            k = tap.count[p] = tap.count.get(p, 0) + 1
+            if tap.thin <= 1 or k <= 3 or k % tap.thin == 0:
+                size, crc = disk_state(p)
+            else:
+                size, crc = os.path.getsize(p), None
+            tap.ev.append(("C", p, n, size, crc))
+            return r
+
+        def rp(self_, *a, **k):
+            for item in tap.orp(self_, *a, **k):
+                tap.ev.append(("Y", int(item[0])))
+                yield item
+
+        self.w, self.c, self.rp = w, c, rp
+
+    def __enter__(self):
+        self.fileio.FileWriter.write = self.w
+        self.fileio.FileWriter.cwrite = self.c
+        self.FilReader.read_plan = self.rp
+        return self
+
+    def __exit__(self, *a):
+        self.fileio.FileWriter.write = self.ow
+        self.fileio.FileWriter.cwrite = self.oc
+        self.FilReader.read_plan = self.orp
+
+
+def scale_reader(R, K, c, o, fin, hdrlen, nbits, nch, marks, rng):
+    """reader half of the property at scale: cut the finished output `o` (content `fin`, uint8) at byte lengths around `marks`
+    (block boundaries), around 2**16 / 2**24 samples and bytes, in the middle of a block and one byte short; each must open with
+    FilReader, report floor(8(L-|hdr|)/(nbits*nchans)) samples and read back (first / middle / last window) as the independent
+    numpy decoding of the same bytes.  Truncates `o` in place, longest first."""
+    from sigpyproc.readers import FilReader
+    if (nbits * nch) % 8 != 0:
+        return
+    stride = nbits * nch // 8
+    data = fin[hdrlen:]
+    Ls = {int(fin.size), int(fin.size) - 1, hdrlen, hdrlen + (int(data.size) // 2 // stride) * stride + stride // 2 + 1}
+    for m in list(marks[:2]) + list(marks[-2:]):
+        Ls |= {m - 1, m, m + 1}
+    for s in (1 << 16, 1 << 22, 1 << 24):
+        Ls |= {hdrlen + s * stride - 1, hdrlen + s * stride, hdrlen + s * stride + 1, hdrlen + s - 1, hdrlen + s + 1}
+    Ls = sorted((L for L in Ls if hdrlen <= L <= fin.size), reverse=True)
+    if len(Ls) > 10:
+        keep = set(Ls[:4] + Ls[-3:] + rng.sample(Ls[4:-3], 3))
+        Ls = [L for L in Ls if L in keep]
+    for L in Ls:
+        cc = dict(c, L=L, hdrlen=hdrlen, final_len=int(fin.size))
+        R.tick(cc)
+        if L < fin.size:
+            os.truncate(o, L)
+        try:
+            g = FilReader(o)
+            k = int(g.header.nsamples)
+        except Exception as e:  # noqa: BLE001
+            R.fail(K + "truncation", "at scale: a truncation at or after the header does not open with FilReader",
+                   dict(cc, exc=f"{type(e).__name__}: {str(e)[:120]}"))
+            continue
+        want = 8 * (L - hdrlen) // (nbits * nch)
+        if k != want or g.header.nbits != nbits or g.header.nchans != nch:
+            R.fail(K + "truncation", "at scale: a truncated output reports a sample count other than floor(8(L-|hdr|)/(nbits*nchans)) or another header",
+                   dict(cc, got=k, want=want, nbits=int(g.header.nbits), nchans=int(g.header.nchans)))
+            continue
+        if k == 0:
+            continue
+        wins = {(0, min(k, 64)), (max(0, k - 2048), k), (k // 2, min(k, k // 2 + 512))}
+        for a, b in sorted(wins):
+            if b <= a:
+                continue
+            try:
+                got = np.asarray(g.read_block(a, b - a).data)
+            except Exception as e:  # noqa: BLE001
+                R.fail(K + "truncation", "at scale: read_block inside the reported sample count fails on a truncated output",
+                       dict(cc, k=k, window=[a, b], exc=f"{type(e).__name__}: {str(e)[:120]}"))
+                break
+            ref = np_dec(data[a * stride:b * stride], nbits).reshape(b - a, nch).T
+            if got.shape != ref.shape or not np.array_equal(got.astype(np.float64), ref.astype(np.float64)):
+                R.fail(K + "truncation", "at scale: a truncated output does not read as the first k samples of the full result",
+                       dict(cc, k=k, window=[a, b]))
+                break
+        del g
+
+
+def scale_judge(R, d, case, site, o, ev, meta, exc, rng, reader=True):
+    """writer half of the property at scale for one output path.  meta: per_block (samples in the block of the plan -> bytes this
+    output gains) or sizes (explicit list of block sizes in bytes), want_n (samples of the finished output, independent arithmetic,
+    or None), nbits / nchans of the output, expected (callable -> uint8 array: the finished data section by the independent numpy
+    reference, or None)"""
+    from sigpyproc.io import sigproc
+    c = dict(case, out=os.path.basename(o))
+    K = f"scale-{site}-"
+    nbits, nch = meta["nbits"], meta["nchans"]
+    idx = [i for i, e in enumerate(ev) if e[0] in "WC" and e[1] == o]
+    if not idx:
+        if exc is None:
+            R.fail(K + "no-output", "at scale: the call returned but nothing was written to the output path", c)
+        return
+    evs = [ev[i] for i in idx]
+    nW, nC = sum(1 for e in evs if e[0] == "W"), sum(1 for e in evs if e[0] == "C")
+    c["events"] = f"{nW} write, {nC} cwrite"
+    if exc is not None:
+        c["died"] = exc
+    # ---- the first thing on disk is exactly the encoded header, written once
+    e0 = evs[0]
+    if e0[0] != "W" or e0[3] != e0[2] or e0[4] != len(e0[2]):
+        R.fail(K + "header", "at scale: after the first write the path does not hold exactly the encoded header",
+               dict(c, first_event=e0[0], size_on_disk=e0[4] if e0[0] == "W" else e0[3], header_len=len(e0[2]) if e0[0] == "W" else None))
+        return
+    h = e0[2]
+    try:
+        t = os.path.join(d, "hdr_only.fil")
+        with open(t, "wb") as f:
+            f.write(h)
+        ph = sigproc.parse_header(t)
+        if ph["hdrlen"] != len(h) or ph["nbits"] != nbits or ph["nchans"] != nch:
+            raise ValueError(f"hdrlen {ph['hdrlen']} (wrote {len(h)}), nbits {ph['nbits']} (output is {nbits}), nchans {ph['nchans']} (output has {nch})")
+    except Exception as e:  # noqa: BLE001
+        R.fail(K + "header", "at scale: what the first write left on disk is not the complete SIGPROC header of this output",
+               dict(c, exc=f"{type(e).__name__}: {str(e)[:160]}"))
+        return
+    if nW != 1:
+        R.fail(K + "header", "at scale: more than one raw write on the output (header written or patched again)", c)
+        return
+    # ---- one block per block of the read plan, in order; after block j the file is header + the blocks so far (sizes)
+    if meta.get("sizes") is not None:
+        bs = list(meta["sizes"])
+        if exc is None and nC != len(bs):
+            R.fail(K + "blocks", "at scale: number of blocks written differs from the number handed to the writer", dict(c, expected_blocks=len(bs)))
+            return
+        bs = bs[:nC]
+    else:
+        bs, pending, bad = [], None, None
+        for e in ev[idx[0] + 1:idx[-1] + 1]:
+            if e[0] == "Y":
+                if pending is not None:
+                    bad = f"a block of {pending} samples of the read plan went by without a write to this output (after {len(bs)} blocks)"
+                    break
+                pending = e[1]
+            elif e[0] == "C" and e[1] == o:
+                if pending is None:
+                    bad = f"two writes to this output within one block of the read plan (after {len(bs)} blocks)"
+                    break
+                bs.append(meta["per_block"](pending))
+                pending = None
+        if bad:
+            R.fail(K + "blocks", "at scale: blocks do not reach the output one per block of the read plan, in order: " + bad, c)
+            return
+    acc, marks = len(h), []
+    for j, e in enumerate(evs[1:]):
+        acc += bs[j]
+        marks.append(acc)
+        if e[3] != acc:
+            R.fail(K + "append", "at scale: after a cwrite the path does not hold header + the blocks written so far "
+                   f"(block {j} of {e[2]} elements: {e[3]} bytes on disk, {acc} expected)",
+                   dict(c, block=j, block_elements=e[2], block_bytes=bs[j], size_on_disk=e[3], expected_size=acc, header_len=len(h)))
+            return
+    # ---- the file left behind: every observed state is a byte prefix of it (header region included), it equals the last state
+    fin = np.fromfile(o, np.uint8)
+    if fin[:len(h)].tobytes() != h:
+        R.fail(K + "header-patched", "at scale: the header region of the file left behind differs from the header first written", dict(c, header_len=len(h)))
+        return
+    if fin.size != acc:
+        R.fail(K + "final", "at scale: the file left behind has another length than after the last write" if exc is None
+               else "at scale: what survives the exception has another length than after the last write", dict(c, final_len=int(fin.size), last_len=acc))
+        return
+    pos, crc = 0, 0
+    for j, e in enumerate(evs[1:]):
+        if e[4] is None:
+            continue
+        crc = zlib.crc32(fin[pos:e[3]], crc)
+        pos = e[3]
+        if crc != e[4]:
+            R.fail(K + "prefix", f"at scale: the state of the output after block {j} ({e[3]} bytes) is not a byte prefix of the file left behind "
+                   "(something already on disk was rewritten later)", dict(c, block=j, state_len=e[3], final_len=int(fin.size)))
+            return
+    if exc is None:
+        if meta.get("want_n") is not None:
+            wl = len(h) + meta["want_n"] * nch * nbits // 8
+            if fin.size != wl:
+                R.fail(K + "final", "at scale: on return the file is not header + the whole result (length)",
+                       dict(c, final_len=int(fin.size), expected_len=wl, expected_samples=meta["want_n"]))
+                return
+        if meta.get("expected") is not None:
+            exp = meta["expected"]()
+            got = fin[len(h):]
+            if exp.size != got.size or not np.array_equal(exp, got):
+                n = min(exp.size, got.size)
+                nz = np.flatnonzero(exp[:n] != got[:n])
+                R.fail(K + "final", "at scale: on return the data section differs from the independent numpy reference",
+                       dict(c, data_len=int(got.size), expected_len=int(exp.size), first_differing_byte=int(nz[0]) if nz.size else n))
+                return
+            del exp, got
+    if reader:
+        scale_reader(R, K, c, o, fin, len(h), nbits, nch, marks, rng)
+
+
+def scale(R: vlib.Run):
+    """at-scale search for C20.  Every implementation path of run(R) -- prep_outfile / FileWriter.write / FileWriter.cwrite, the nine
+    streaming writers of base.py, FilterbankBlock.to_file, TimeSeries.to_tim, and FilReader on truncations -- on inputs that are
+    large in each dimension that can matter.  Regimes (generators below, all data from numpy.random.default_rng([seed, ...])):
+      A cwrite-thresholds  prep_outfile + a run of cwrite calls of 2**k - d, 2**k, 2**k + d elements, k = 16, 18, 20, 22, (24), at every
+                           writer depth and with in-memory dtypes wider / narrower than the depth; values over the whole dtype range
+                           (float32: +-3.4e38, denormals); finished files of up to 6.7e7 samples (> 2**24) cut and re-read
+      B streaming          64 channels x 100000 samples at depths 8, 1, 2, 4, 16, 32; the nine writers at the default gulp 16384 (argument left out; 2**20
+                           elements per block), 65537 (just above 2**22 elements), 4095 (non-dividing; just below 2**18), whole file and a
+                           sub-range with start > 0
+      C many-blocks        16 channels x 40000 samples, gulp 61: 640 .. 1000 blocks per output for all nine writers;
+                           2 channels x 70000 samples, gulp 1: 70000 blocks (> 2**16) for extract_samps / invert_freq / requantize
+      D many-outputs       512 channels x 20000 samples: extract_chans of 450 channels and extract_bands into 256 bands with the
+                           default batch size (3 and 2 batches, 200 files open at a time)
+      E one-shot           FilterbankBlock.to_file of 65537 x 64 (> 2**22 elements), TimeSeries.to_tim of 100000 and of 2**24 + 5000 samples
+      F long               2 channels x (2**24 + 5000) samples at 4 bits (1 byte per sample): extract_samps / invert_freq / requantize /
+                           downsample / remove_zerodm with blocks of 2**20 .. 2**24 + 1 samples, a start beyond 2**24, a range of 2**23 from 2**23 + 1
+      G many-channels      4096 channels x 700 samples at 8 and 2 bits, gulp 300: all nine writers (bands of 1024 channels)
+    Oracle = the small-scope oracle of run(): header first, exactly and once; after every cwrite the path holds header + the blocks
+    so far (byte counts from the plan, content as crc32 of the whole file read back); one block per block of the read plan; every
+    state is a byte prefix of the file left behind, which equals the last state and, where the transform is a selection / permutation
+    / re-encoding, the independent numpy reference; byte-length truncations open, count and read as prefixes."""
+    import random
+    from sigpyproc.header import Header
+    from sigpyproc.io import sigproc
+    from sigpyproc.readers import FilReader
+    SEED = R.seed + 2020
+    rng = random.Random(SEED)
+    d = os.path.join(vlib.SCRATCH, f"c20s_{os.getpid()}")
+    shutil.rmtree(d, ignore_errors=True)
+    os.makedirs(d, exist_ok=True)
+    GEN = "props/c20.py scale(): make_input / regime tables"
+    FCH1, TS = 400.0, 0.001
+    import time
+    t_reg, t_last = {}, [time.time()]
+
+    def lap(name):
+        t_reg[name] = round(t_reg.get(name, 0.0) + time.time() - t_last[0], 1)
+        t_last[0] = time.time()
+
+    def header_of(name, nbits, nch, N):
+        return Header(filename=name, data_type="filterbank", nchans=nch, foff=-200.0 / nch, fch1=FCH1, nbits=nbits, tsamp=TS,
+                      tstart=60000.0, nsamples=N)
+
+    def make_input(tag, nbits, nch, N, seed):
+        """(nsamps, nchans) values over the whole range of the depth (float32: integers 0..255, exact under every transform),
+        written with plain file I/O: encoded header + independent numpy encoding (not FileWriter)"""
+        g = np.random.default_rng(seed)
+        if nbits <= 8:
+            x = g.integers(0, 1 << nbits, (N, nch), dtype=np.uint8)
+        elif nbits == 16:
+            x = g.integers(0, 1 << 16, (N, nch), dtype=np.uint16)
+        else:
+            x = g.integers(0, 256, (N, nch), dtype=np.uint8).astype(np.float32)
+        p = os.path.join(d, f"{tag}.fil")
+        with open(p, "wb") as f:
+            f.write(sigproc.encode_header(header_of(os.path.basename(p), nbits, nch, N).to_sigproc()))
+            np_enc(x, nbits).tofile(f)
+        return p, x
+
+    def do_call(case, site, outs, fn, metas, thin=1, readers=None):
+        """one implementation call under the observer; metas: one dict per output (see scale_judge)"""
+        for o in outs:
+            with open(o, "wb") as f:
+                f.write(JUNK)
+        R.tick(case)
+        R.case(("scale", case["regime"], site, case.get("nbits"), case.get("gulp"), case.get("start"), case.get("p")), regime="scale")
+        exc = None
+        with ScaleTap(thin) as tap:
+            try:
+                fn()
+            except vlib.Hang:
+                raise
+            except Exception as e:  # noqa: BLE001 -- the call died: what is on disk must still be a valid prefix
+                exc = f"{type(e).__name__}: {str(e)[:100]}"
+            ev = tap.ev
+        if exc is not None:
+            R.case(("scale-died", site, case.get("nbits")), nontrivial=False, regime="scale-died:" + site)
+        touched = sorted(set(e[1] for e in ev if e[0] in "WC") - set(outs))
+        if touched:
+            R.fail(f"scale-{site}-no-output", "at scale: a path that is not one of the outputs was written", dict(case, paths=[os.path.basename(t) for t in touched[:5]]))
+        for oi, (o, meta) in enumerate(zip(outs, metas)):
+            scale_judge(R, d, case, site, o, ev, meta, exc, rng, reader=(readers is None or oi in readers))
+        for o in outs:
+            try:
+                os.remove(o)
+            except OSError:
+                pass
+
+    def writer_calls(fil, x, nbits, nch, N, gulp, start, nsamps, dm, default_gulp=False):
+        """the nine streaming writers on the range (start, nsamps): (site, p, outs, fn, metas).  default_gulp: the gulp argument is
+        left out (the writers' default of 16384 samples applies; `gulp` must then be 16384)"""
+        o1 = os.path.join(d, "o.fil")
+        base = os.path.join(d, "o")
+        gk = {} if default_gulp else {"gulp": gulp}
+        kw = dict(gk, start=start, nsamps=nsamps, quiet=True)
+        sel = x[start:start + nsamps]
+        by = lambda nb, nc: (lambda ns: ns * nc * nb // 8)   # noqa: E731
+        mask = (np.arange(nch) % 3 == 1)
+        mv = (1 << min(nbits, 8)) - 1
+        nb_out = {1: 2, 2: 4, 4: 8, 8: 32, 16: 32, 32: 8}[nbits]
+        chans = [0, 5, nch - 1]
+        cps = nch // 4
+        tf, ff = 2, (2 if nch >= 4 else 1)      # an output sample stays a whole number of bytes
+        g2 = -(-gulp // tf) * tf
+        want_ds = (nsamps // g2) * (g2 // tf) + (nsamps % g2) // tf
+        delays = fil.header.get_dmdelays(dm)
+        delays = delays - min(0, int(delays.min()))
+        md = int(delays.max())
+        nsub = 4
+
+        def masked():
+            w = sel.copy()
+            w[:, mask] = mv
+            return np_enc(w, nbits)
+
+        out = [
+            ("extract_samps", "", [o1], lambda: fil.extract_samps(start, nsamps, o1, quiet=True, **gk),
+             [dict(per_block=by(nbits, nch), want_n=nsamps, nbits=nbits, nchans=nch, expected=lambda: np_enc(sel, nbits))]),
+            ("invert_freq", "", [o1], lambda: fil.invert_freq(o1, **kw),
+             [dict(per_block=by(nbits, nch), want_n=nsamps, nbits=nbits, nchans=nch, expected=lambda: np_enc(sel[:, ::-1], nbits))]),
+            ("apply_channel_mask", f"fill{mv}", [o1], lambda: fil.apply_channel_mask(mask, mv, o1, **kw),
+             [dict(per_block=by(nbits, nch), want_n=nsamps, nbits=nbits, nchans=nch, expected=masked)]),
+            ("requantize", str(nb_out), [o1], lambda: fil.requantize(nb_out, o1, **kw),
+             [dict(per_block=by(nb_out, nch), want_n=nsamps, nbits=nb_out, nchans=nch, expected=lambda: np_enc(sel, nb_out))]),
+            ("downsample", f"t{tf}f{ff}", [o1], lambda: fil.downsample(tf, ff, o1, **kw),
+             [dict(per_block=lambda ns: (ns // tf) * (nch // ff) * nbits // 8, want_n=want_ds, nbits=nbits, nchans=nch // ff, expected=None)]),
+            ("remove_zerodm", "", [o1], lambda: fil.remove_zerodm(o1, **kw),
+             [dict(per_block=by(nbits, nch), want_n=nsamps, nbits=nbits, nchans=nch, expected=None)]),
+            ("subband", f"dm{dm:.3f};delay{md}", [o1], lambda: fil.subband(dm, nsub, o1, **kw),
+             [dict(per_block=lambda ns: (ns - md) * nsub * 4, want_n=nsamps - md, nbits=32, nchans=nsub, expected=None)]),
+            ("extract_chans", "0,5,last;batch2", [f"{base}_chan{c_:04d}.tim" for c_ in chans],
+             lambda: fil.extract_chans(chans, base, batch_size=2, **kw),
+             [dict(per_block=by(32, 1), want_n=nsamps, nbits=32, nchans=1, expected=(lambda c_=c_: np_enc(sel[:, c_].astype(np.float32), 32))) for c_ in chans]),
+            ("extract_bands", "4 bands;batch3", [f"{base}_sub{i:02d}.fil" for i in range(4)],
+             lambda: fil.extract_bands(0, nch, cps, base, batch_size=3, **kw),
+             [dict(per_block=by(nbits, cps), want_n=nsamps, nbits=nbits, nchans=cps,
+                   expected=(lambda i=i: np_enc(sel[:, i * cps:(i + 1) * cps], nbits))) for i in range(4)]),
+        ]
+        return out
+
+    def pick_dm(fil, lo, hi):
+        for v in np.linspace(0.05, 400, 4000):
+            dl = fil.header.get_dmdelays(float(v))
+            if lo <= int(dl.max()) - min(0, int(dl.min())) <= hi:
+                return float(v)
+        return 1.0
+
+    try:
+        # ---- A: prep_outfile + cwrite around the element-count thresholds, every depth, in-memory dtype != depth -----------------
+        for ai, (wb, mem, top) in enumerate(((8, "u1", 24), (2, "u1", 24), (4, "u1", 24), (1, "u1", 24), (8, "<f4", 24), (16, "<u2", 22),
+                                             (32, "<f4", 22), (32, "u1", 22), (16, "<f4", 20))):
+            nch = max(1, 8 // wb)
+            counts = [(1 << k) + s * nch for k in (16, 18, 20, 22, 24) if k <= top for s in (-1, 0, 1)]
+            if top == 22:
+                counts.append((1 << 24) + nch)
+            seed = [SEED, 1, ai]
+            g = np.random.default_rng(seed)
+            case = {"regime": "A cwrite-thresholds", "nbits": wb, "array_dtype": mem, "nchans": nch,
+                    "element_counts": [f"2**{k}{s * nch:+d}" for k in (16, 18, 20, 22, 24) if k <= top for s in (-1, 0, 1)] + (["2**24%+d" % nch] if top == 22 else []),
+                    "seed": seed, "generator": GEN}
+            o = os.path.join(d, "a.fil")
+            with open(o, "wb") as f:
+                f.write(JUNK)
+            R.tick(case)
+            R.case(("scale", "A", wb, mem), regime="scale")
+            hdr = header_of("a.fil", wb, nch, 0)
+            sizes, exp_crc, bad = [], None, False
+            with ScaleTap() as tap:
+                w = hdr.prep_outfile(o, nbits=wb)
+                if tap.ev and tap.ev[0][0] == "W":
+                    exp_crc = zlib.crc32(tap.ev[0][2])
+                for j, n in enumerate(counts):
+                    if mem == "u1":
+                        arr = g.integers(0, 1 << min(wb, 8), n, dtype=np.uint8)
+                    elif mem == "<u2":
+                        arr = g.integers(0, 1 << 16, n, dtype=np.uint16)
+                        arr[::4099] = 65535
+                    elif wb == 32:
+                        arr = g.integers(0, 1 << 24, n, dtype=np.int64).astype(np.float32)
+                        arr[::1001], arr[5::1003], arr[7::1009] = 3.4e38, -3.4e38, 1e-45
+                    else:
+                        arr = g.integers(0, 1 << wb, n, dtype=np.int64).astype(np.float32)
+                    eb = np_enc(arr, wb)
+                    sizes.append(int(eb.size))
+                    R.tick(dict(case, block=j, elements=n))
+                    w.cwrite(arr)
+                    e = tap.ev[-1]
+                    if exp_crc is not None:
+                        exp_crc = zlib.crc32(eb, exp_crc)
+                        if e[0] == "C" and e[3] == len(tap.ev[0][2]) + sum(sizes) and e[4] != exp_crc and not bad:
+                            bad = True
+                            R.fail("scale-cwrite-append", f"at scale: after cwrite of block {j} ({n} elements of {mem} to a {wb}-bit writer) the path has the "
+                                   "right length but not the bytes header + the independent numpy encoding of the blocks so far",
+                                   dict(case, block=j, elements=n, size_on_disk=e[3]))
+                    del arr, eb
+                w.close()
+                ev = tap.ev
+            scale_judge(R, d, case, "cwrite", o, ev, dict(sizes=sizes, want_n=sum(counts) // nch, nbits=wb, nchans=nch, expected=None), None, rng)
+            os.remove(o)
+
+        lap("A")
+        # ---- B: the nine streaming writers, 64 channels x 100000 samples, every depth --------------------------------------------
+        NB, CH = 100000, 64
+        GULPS = (16384, 65537, 4095)
+        for di, nbits in enumerate((8, 2, 32, 1, 4, 16)):
+            seed = [SEED, 2, nbits]
+            inp, x = make_input(f"b{nbits}", nbits, CH, NB, seed)
+            fil = FilReader(inp)
+            dm = pick_dm(fil, 500, 2000)
+            for gi, gulp in enumerate(GULPS):
+                for wi in range(9):
+                    if nbits != 8 and (wi + di) % 3 != gi:
+                        continue                 # depth 8: every writer at every gulp; other depths: every writer at one gulp (rotating)
+                    start, nsamps = ((0, NB), (777, NB - 3000))[(wi + gi + di) % 2]
+                    site, p, outs, fn, metas = writer_calls(fil, x, nbits, CH, NB, gulp, start, nsamps, dm, default_gulp=(gulp == 16384))[wi]
+                    case = {"regime": "B streaming", "site": site, "nbits": nbits, "nchans": CH, "N": NB, "gulp": "default (16384)" if gulp == 16384 else gulp,
+                            "start": start, "nsamps": nsamps, "p": p, "seed": seed, "generator": GEN}
+                    do_call(case, site, outs, fn, metas, readers={0, len(outs) - 1})
+            if nbits in (8, 2):
+                # ---- E (first half): a block of more than 2**22 elements written in one shot
+                n1, s1 = 65537, 1234
+                o = os.path.join(d, "blk.fil")
+                case = {"regime": "E one-shot", "site": "to_file", "nbits": nbits, "nchans": CH, "N": NB, "start": s1, "nsamps": n1, "seed": seed, "generator": GEN}
+                do_call(case, "to_file", [o], lambda: fil.read_block(s1, n1).to_file(o),
+                        [dict(sizes=[n1 * CH * 4], want_n=n1, nbits=32, nchans=CH, expected=lambda: np_enc(x[s1:s1 + n1].astype(np.float32), 32))])
+            if nbits == 8:
+                o = os.path.join(d, "ts.tim")
+                case = {"regime": "E one-shot", "site": "to_tim", "nbits": nbits, "nchans": CH, "N": NB, "chan": 3, "seed": seed, "generator": GEN}
+                do_call(case, "to_tim", [o], lambda: fil.read_chan(3, quiet=True).to_tim(o),
+                        [dict(sizes=[NB * 4], want_n=NB, nbits=32, nchans=1, expected=lambda: np_enc(x[:, 3].astype(np.float32), 32))])
+            del fil, x
+            os.remove(inp)
+
+        lap("B+E")
+        # ---- F: more than 2**24 samples (1 byte per sample): offsets, sample counts and start beyond 2**24 ----------------------------
+        NT = (1 << 24) + 5000
+        seed = [SEED, 5, 4]
+        inp, x = make_input("f4", 4, 2, NT, seed)
+        fil = FilReader(inp)
+        for wi, gulp, start, nsamps in ((0, (1 << 22) + 1, 0, NT), (0, 16384, (1 << 24) + 7, 4000), (1, 1 << 20, 3, NT - 5), (3, 3000001, (1 << 23) + 1, 1 << 23),
+                                        (4, 1 << 21, 0, NT), (5, (1 << 24) + 1, 0, NT)):
+            site, p, outs, fn, metas = writer_calls(fil, x, 4, 2, NT, gulp, start, nsamps, 0.0)[wi]
+            case = {"regime": "F long", "site": site, "nbits": 4, "nchans": 2, "N": NT, "gulp": gulp, "start": start, "nsamps": nsamps,
+                    "p": p, "seed": seed, "generator": GEN}
+            do_call(case, site, outs, fn, metas)
+        o = os.path.join(d, "ts.tim")
+        case = {"regime": "E one-shot", "site": "to_tim", "nbits": 4, "nchans": 2, "N": NT, "chan": 1, "seed": seed, "generator": GEN}
+        do_call(case, "to_tim", [o], lambda: fil.read_chan(1, quiet=True).to_tim(o),
+                [dict(sizes=[NT * 4], want_n=NT, nbits=32, nchans=1, expected=lambda: np_enc(x[:, 1].astype(np.float32), 32))])
+        del fil, x
+        os.remove(inp)
+
+        # ---- G: many channels ---------------------------------------------------------------------------------------------------------
+        NG, CG = 700, 4096
+        for nbits in (8, 2):
+            seed = [SEED, 6, nbits]
+            inp, x = make_input(f"g{nbits}", nbits, CG, NG, seed)
+            fil = FilReader(inp)
+            dm = pick_dm(fil, 5, 100)
+            for wi in range(9):
+                start, nsamps = ((0, NG), (55, NG - 100))[wi % 2]
+                site, p, outs, fn, metas = writer_calls(fil, x, nbits, CG, NG, 300, start, nsamps, dm)[wi]
+                case = {"regime": "G many-channels", "site": site, "nbits": nbits, "nchans": CG, "N": NG, "gulp": 300, "start": start, "nsamps": nsamps,
+                        "p": p, "seed": seed, "generator": GEN}
+                do_call(case, site, outs, fn, metas, readers={0})
+            del fil, x
+            os.remove(inp)
+
+        lap("F+G")
+        # ---- C: many blocks ------------------------------------------------------------------------------------------------------------
+        NC, CC = 40000, 16
+        for nbits in (8, 4):
+            seed = [SEED, 3, nbits]
+            inp, x = make_input(f"c{nbits}", nbits, CC, NC, seed)
+            fil = FilReader(inp)
+            dm = pick_dm(fil, 6, 25)
+            for wi in range(9):
+                start, nsamps = ((0, NC), (777, NC - 3000))[wi % 2]
+                site, p, outs, fn, metas = writer_calls(fil, x, nbits, CC, NC, 61, start, nsamps, dm)[wi]
+                case = {"regime": "C many-blocks", "site": site, "nbits": nbits, "nchans": CC, "N": NC, "gulp": 61, "start": start, "nsamps": nsamps,
+                        "p": p, "seed": seed, "generator": GEN}
+                do_call(case, site, outs, fn, metas, readers={0})
+            del fil, x
+            os.remove(inp)
+        NC2 = 70000
+        seed = [SEED, 3, 0]
+        inp, x = make_input("c8x2", 8, 2, NC2, seed)
+        fil = FilReader(inp)
+        for wi in (0, 1, 3):
+            start, nsamps = (0, NC2) if wi != 1 else (3, NC2 - 5)
+            site, p, outs, fn, metas = writer_calls(fil, x, 8, 2, NC2, 1, start, nsamps, 0.0)[wi]
+            case = {"regime": "C many-blocks", "site": site, "nbits": 8, "nchans": 2, "N": NC2, "gulp": 1, "start": start, "nsamps": nsamps,
+                    "p": p, "seed": seed, "generator": GEN, "whole_file_read_back": "blocks 1-3 and every 257th (size at every block)"}
+            do_call(case, site, outs, fn, metas, thin=257)
+        del fil, x
+        os.remove(inp)
+
+        lap("C")
+        # ---- D: many outputs (several batches of the default batch size) ------------------------------------------------------------
+        ND, CD = 20000, 512
+        seed = [SEED, 4, 8]
+        inp, x = make_input("d8", 8, CD, ND, seed)
+        fil = FilReader(inp)
+        base = os.path.join(d, "m")
+        chans = [c_ for c_ in range(CD) if c_ % 8 != 7][:450]
+        for start, nsamps, gulp in ((0, ND, 16384), (1000, 18000, 7000)):
+            sel = x[start:start + nsamps]
+            case = {"regime": "D many-outputs", "site": "extract_chans", "nbits": 8, "nchans": CD, "N": ND, "gulp": gulp, "start": start, "nsamps": nsamps,
+                    "p": "450 channels (all but c%8==7, first 450); default batch_size", "seed": seed, "generator": GEN}
+            outs = [f"{base}_chan{c_:04d}.tim" for c_ in chans]
+            ret = []
+            do_call(case, "extract_chans", outs, lambda: ret.extend(fil.extract_chans(chans, base, gulp=gulp, start=start, nsamps=nsamps, quiet=True)),
+                    [dict(per_block=lambda ns: ns * 4, want_n=nsamps, nbits=32, nchans=1, expected=(lambda c_=c_: np_enc(sel[:, c_].astype(np.float32), 32))) for c_ in chans],
+                    readers={0, 199, 200, 449})
+            if ret and sorted(ret) != sorted(outs):
+                R.fail("scale-extract_chans-no-output", "at scale: the list of files returned differs from the outputs requested", dict(case, returned=len(ret)))
+            case = dict(case, site="extract_bands", p="256 bands of 2 channels; default batch_size")
+            outs = [f"{base}_sub{i:02d}.fil" for i in range(CD // 2)]
+            ret = []
+            do_call(case, "extract_bands", outs, lambda: ret.extend(fil.extract_bands(0, CD, 2, base, gulp=gulp, start=start, nsamps=nsamps, quiet=True)),
+                    [dict(per_block=lambda ns: ns * 2, want_n=nsamps, nbits=8, nchans=2, expected=(lambda i=i: np_enc(sel[:, 2 * i:2 * i + 2], 8))) for i in range(CD // 2)],
+                    readers={0, 199, 200, 255})
+            if ret and sorted(ret) != sorted(outs):
+                R.fail("scale-extract_bands-no-output", "at scale: the list of files returned differs from the outputs requested", dict(case, returned=len(ret)))
+        del fil, x
+        os.remove(inp)
+        lap("D")
+        R.extra_cov["scale_seconds_by_regime"] = t_reg
+    finally:
+        shutil.rmtree(d, ignore_errors=True)
